@@ -17,14 +17,15 @@ HORIZON = {"quick": 400, "thorough": 3600}
 
 PAIRS = ["hamming74+syndrome", "hamming74+bruteforce", "hamming-r+syndrome", "bch15_7+bm", "bch15_5+bm", "rm13+reed", "rep5+bruteforce", "cyclic7+syndrome",
          "tree+bp", "tree+minsum", "spc4+wagner", "polar8_4+sc", "polar8_4+polarbp", "rm13+softrm", "polar16_8+sc",
-         "polar8_4+polarbp1", "polar8_4+polarbp1ms", "polar16_8+polarbp2"]      # smallest iteration budgets (one sweep already converges on these links)
+         "polar8_4+polarbp1", "polar8_4+polarbp1ms", "polar16_8+polarbp2",
+         "polar8_4i+sc", "polar16_8i+sc", "polar8_4o+sc"]        # interleaved (polar_i=True) encoders and frozen ones with the SC decoder      # smallest iteration budgets (one sweep already converges on these links)
 
 
 def bounds(tier):
     return {"pairs": PAIRS, "messages": "all 2^k", "flip_patterns": "all of weight <= t", "displacement": "0.49*dmin x 8 directions"}
 
 
-N_OF = {"hamming74": 7, "hamming-r": 7, "bch15_7": 15, "bch15_5": 15, "rm13": 8, "rep5": 5, "cyclic7": 7, "tree": 6, "spc4": 5, "polar8_4": 8, "polar16_8": 16}
+N_OF = {"hamming74": 7, "hamming-r": 7, "bch15_7": 15, "bch15_5": 15, "rm13": 8, "rep5": 5, "cyclic7": 7, "tree": 6, "spc4": 5, "polar8_4": 8, "polar16_8": 16, "polar8_4i": 8, "polar16_8i": 16, "polar8_4o": 8}
 
 
 def cases(tier, seed):
@@ -56,7 +57,9 @@ def build_pair(pr):
            "bch15_5": lambda: E.BCHCodeEncoder(4, 7, information_set="right"), "rm13": lambda: E.ReedMullerCodeEncoder(1, 3), "rep5": lambda: E.RepetitionCodeEncoder(5),
            "cyclic7": lambda: E.CyclicCodeEncoder(7, generator_polynomial=0b1011),
            "tree": lambda: E.LDPCCodeEncoder(check_matrix=torch.tensor([[1.0, 1, 0, 1, 0, 0], [0, 1, 1, 0, 1, 0], [0, 0, 0, 1, 1, 1]])),
-           "spc4": lambda: E.SingleParityCheckCodeEncoder(4), "polar8_4": lambda: E.PolarCodeEncoder(4, 8, frozen_zeros=True), "polar16_8": lambda: E.PolarCodeEncoder(8, 16)}[code]()
+           "spc4": lambda: E.SingleParityCheckCodeEncoder(4), "polar8_4": lambda: E.PolarCodeEncoder(4, 8, frozen_zeros=True), "polar16_8": lambda: E.PolarCodeEncoder(8, 16),
+           "polar8_4i": lambda: E.PolarCodeEncoder(4, 8, frozen_zeros=True, polar_i=True), "polar16_8i": lambda: E.PolarCodeEncoder(8, 16, polar_i=True),
+           "polar8_4o": lambda: E.PolarCodeEncoder(4, 8, frozen_zeros=False)}[code]()
     d = {"syndrome": lambda: D.SyndromeLookupDecoder(enc), "bruteforce": lambda: D.BruteForceMLDecoder(enc), "bm": lambda: D.BerlekampMasseyDecoder(enc), "reed": lambda: D.ReedMullerDecoder(enc),
          "bp": lambda: D.BeliefPropagationDecoder(enc, bp_iters=12), "minsum": lambda: D.MinSumLDPCDecoder(enc, bp_iters=12), "wagner": lambda: D.WagnerSoftDecisionDecoder(enc),
          "sc": lambda: D.SuccessiveCancellationDecoder(enc), "polarbp": lambda: D.BeliefPropagationPolarDecoder(enc, bp_iters=10),
